@@ -286,6 +286,14 @@ def run_shard(ctx, shard):
     for i in range(shard["n"]):
         c = make(rng, i + shard.get("index", 0))
         judge(ctx, c)
+        if i % 3 == 2:
+            # a second spectrum in the same process with the same numbers of bins and the same first/last frequency but
+            # direction bins shifted by half a bin: nothing remembered from the first grid may be used for this one
+            c3 = dict(c)
+            c3["dir"] = (np.asarray(c["dir"], float) + 180.0 / len(c["dir"])) % 360.0
+            c3["kind_note"] = "same-shape-grid-shifted-half-a-bin"
+            ctx.count("C11.second_grid_of_the_same_shape")
+            judge(ctx, c3)
         if i % 4 == 0 and c["kind"] in ("windsea", "young", "veering"):
             c2 = weaken(c)
             if c2 is not None:
